@@ -456,6 +456,8 @@ class vCategory:
 
     @staticmethod
     def from_ical(ical):
+        if isinstance(ical, vCategory):
+            return [str(cat) for cat in ical.cats]
         ical = to_unicode(ical)
         # split on the commas that separate the items, not on escaped ones
         items = re.split(r'(?<!\\)((?:\\\\)*),', ical)
@@ -1630,6 +1632,8 @@ class vGeo:
 
     @staticmethod
     def from_ical(ical):
+        if isinstance(ical, vGeo):
+            return (ical.latitude, ical.longitude)
         try:
             latitude, longitude = ical.split(";")
             return (float(latitude), float(longitude))
